@@ -1146,11 +1146,15 @@ class TrackWorld(World):
             if any(v != v for v in col) or len(set(col)) < 2:
                 raise Skip()                  # zero variance / NaN: division by zero is input-domain, not C01
         rv, exc = self.call(t.operate, Operator.CORRELATOR, st["in1"], st["in2"], st["out"])
-        if exc is not None:
+        if exc is not None and not isinstance(exc, ArithmeticError):
             return self._unexpected("C01", exc, "operate(Operator.CORRELATOR)")
+        # (an ArithmeticError is a refusal: variances of columns with wildly different magnitudes
+        # underflow to zero; the table is judged all the same)
         if st["out"] in t.getListAnalyticalFeatures():
             self._setcol(m, st["out"], list(t[st["out"]]))
         self._check_all("C01", "correlator")
+        if exc is not None:
+            return "domain"
 
     # -- expressions ---------------------------------------------------------------
     def _lit(self, v):
